@@ -46,14 +46,16 @@ Theorem C15_committee_finalized_only : forall c e1 h1 e2 h2 cs inst,
 Proof. exact committee_finalized_only. Qed.
 Print Assumptions C15_committee_finalized_only.
 
-(* non-vacuity: base m1, head m4 on the line, a fork f off m2: proposal [m1; m2; m3] with head-lookback 1; from the fork
-   head the proposal still follows the fork's own parent chain; from a head that left the base it collapses *)
+(* non-vacuity: base m1, head m4 on the line: proposal [m1; m2; m3] with head-lookback 1; from the head f5 of a fork off m2
+   the proposal follows the fork's own parent chain; from a head whose ancestry passes below the base's epoch without
+   meeting the base it collapses to the base *)
 Definition ex_ec : ec := [ mkT 1 10 0 0 91 81 91; mkT 2 11 1 30 92 82 92; mkT 3 13 2 90 93 83 93; mkT 4 14 3 120 94 84 94;
-                           mkT 5 12 2 60 95 85 95; mkT 6 12 0 0 96 86 96 ].
+                           mkT 5 12 2 60 95 85 95; mkT 7 12 8 0 97 87 97; mkT 8 9 0 0 98 88 98 ].
 Definition ex_cfg := mkCfg 0 20 10 2 1 30 10.
-Definition ex_cs := mkCerts (fun i => None) (fun i => if i =? 0 then Some 77 else None) false.
+Definition ex_cs := mkCerts (fun i => if i =? 0 then Some (1, 1) else None) (fun i => if i =? 0 then Some 77 else if i =? 1 then Some 78 else None) true.
 Example C15_nonvacuous :
-  proposal ex_cfg ex_ec 4 ex_cs 1000 0 = Some (77, [(1, 10, 91); (2, 11, 92); (3, 13, 93)]) /\
-  proposal ex_cfg ex_ec 5 ex_cs 1000 0 = Some (77, [(1, 10, 91)]) /\
-  collect ex_ec (mkT 1 10 0 0 91 81 91) (mkT 6 12 0 0 96 86 96) = CErr.
+  proposal ex_cfg ex_ec 4 ex_cs 1000 1 = Some (77, [(1, 10, 91); (2, 11, 92); (3, 13, 93)]) /\
+  proposal ex_cfg ex_ec 5 ex_cs 1000 1 = Some (77, [(1, 10, 91); (2, 11, 92)]) /\
+  proposal ex_cfg ex_ec 7 ex_cs 1000 1 = Some (77, [(1, 10, 91)]) /\
+  collect ex_ec (mkT 1 10 0 0 91 81 91) (mkT 7 12 8 0 97 87 97) = CCollapse.
 Proof. vm_compute. repeat split. Qed.
